@@ -647,6 +647,24 @@ impl MessageReceiver {
         target_reader.handle_heartbeatfrag_msg(&heartbeatfrag, &mr_state);
       }
     }
+
+    // The Readers of a topic share the limit up to which a Writer's stream can be
+    // read. If this Reader has just moved it, the DataReaders of the other
+    // Readers can read further, too, and nobody else is going to tell them.
+    let moved = self
+      .available_readers
+      .get(&target_reader_entity_id)
+      .and_then(|r| {
+        r.take_moved_reliable_before()
+          .map(|writer_guid| (writer_guid, r.topic_name().clone()))
+      });
+    if let Some((moved_writer_guid, topic_name)) = moved {
+      for sibling in self.available_readers.values_mut().filter(|r| {
+        r.entity_id() != target_reader_entity_id && *r.topic_name() == topic_name
+      }) {
+        sibling.notify_if_more_is_readable(moved_writer_guid);
+      }
+    }
   }
 
   // see security version of the same function below
